@@ -1099,7 +1099,7 @@ fn print_tokens(ts: TokenStream, indent: usize, out: &mut String) {
 }
 
 fn is_kw(s: &str) -> bool {
-    matches!(s, "if" | "while" | "match" | "return" | "in" | "let" | "else" | "loop" | "for" | "as" | "break" | "mut" | "ref" | "move" | "fn" | "where" | "unsafe" | "impl" | "pub" | "invariant" | "requires" | "ensures" | "decreases")
+    matches!(s, "if" | "while" | "match" | "return" | "in" | "let" | "else" | "loop" | "for" | "as" | "break" | "continue" | "mut" | "ref" | "move" | "fn" | "where" | "unsafe" | "impl" | "pub" | "dyn" | "const" | "static" | "struct" | "enum" | "type" | "use" | "mod" | "trait" | "yield" | "await" | "async" | "invariant" | "requires" | "ensures" | "decreases")
 }
 
 // ---------------------------------------------------------------------------------------------
@@ -1226,6 +1226,16 @@ fn main() {
                     ts = rename_idents(ts, &id_renames);
                 }
                 let name = newname.clone().unwrap_or_else(|| f.sig.ident.to_string());
+                {
+                    // nested fn items are dropped from the body, so they are not counted on the source side
+                    let mut src_block = (*f.block).clone();
+                    src_block.stmts.retain(|s| !matches!(s, Stmt::Item(Item::Fn(_)) | Stmt::Item(Item::Macro(_))));
+                    let a = count_ident(src_block.to_token_stream(), "return");
+                    let b = count_ident(ts.clone(), "return");
+                    if a != b {
+                        errors.push(format!("{}: translation guard: {} `return` in the source, {} after lowering", path, a, b));
+                    }
+                }
                 out.push_str(&format!("//@@ITEM fn {} {}\n", path, name));
                 print_tokens(ts, 0, &mut out);
                 out.push_str("//@@END\n\n");
@@ -1266,6 +1276,15 @@ fn main() {
                                 let mut block = m.block.clone();
                                 let what = format!("{}#{}::{}", path, k, name);
                                 let (ts, st) = lower_fn_parts(&mut sig, &mut block, &mut errors, &what);
+                                {
+                                    let mut src_block = m.block.clone();
+                                    src_block.stmts.retain(|s| !matches!(s, Stmt::Item(Item::Fn(_)) | Stmt::Item(Item::Macro(_))));
+                                    let a = count_ident(src_block.to_token_stream(), "return");
+                                    let b = count_ident(flatten_tokens(ts.clone(), &mut Flatten { known: &known, path_renames: Vec::new() }), "return");
+                                    if a != b {
+                                        errors.push(format!("{}: translation guard: {} `return` in the source, {} after lowering", what, a, b));
+                                    }
+                                }
                                 report.push_str(&format!("method {} slice_patterns={} casts={} loops={}\n", what, st.slice_pats, st.casts, st.loops));
                                 fns_ts.push((name, ts));
                             }
@@ -1335,6 +1354,17 @@ fn main() {
     }
 }
 
+/// translation guard: number of occurrences of an identifier token (used for `return`)
+fn count_ident(ts: TokenStream, name: &str) -> usize {
+    ts.into_iter()
+        .map(|tt| match tt {
+            TokenTree::Group(g) => count_ident(g.stream(), name),
+            TokenTree::Ident(i) => (i == name) as usize,
+            _ => 0,
+        })
+        .sum()
+}
+
 fn rename_idents(ts: TokenStream, renames: &[(String, String)]) -> TokenStream {
     ts.into_iter()
         .map(|tt| match tt {
@@ -1381,7 +1411,8 @@ fn flatten_tokens(ts: TokenStream, fl: &mut Flatten) -> TokenStream {
                     if let TokenTree::Ident(_) = &toks[j + 2] {
                         // leading `::` only if previous token is not an ident / `>` (i.e. not a path continuation)
                         let arrow = out.len() >= 2 && matches!(&out[out.len() - 2], TokenTree::Punct(q) if (q.as_char() == '=' || q.as_char() == '-') && q.spacing() == proc_macro2::Spacing::Joint);
-                        let cont = matches!(out.last(), Some(TokenTree::Ident(_))) || (matches!(out.last(), Some(TokenTree::Punct(p)) if p.as_char() == '>') && !arrow);
+                        let prev_kw = matches!(out.last(), Some(TokenTree::Ident(pi)) if is_kw(&pi.to_string()));
+                        let cont = (matches!(out.last(), Some(TokenTree::Ident(_))) && !prev_kw) || (matches!(out.last(), Some(TokenTree::Punct(p)) if p.as_char() == '>') && !arrow);
                         if !cont {
                             leading = true;
                             j += 2;
@@ -1389,6 +1420,13 @@ fn flatten_tokens(ts: TokenStream, fl: &mut Flatten) -> TokenStream {
                     }
                 }
                 if let TokenTree::Ident(id) = &toks[j] {
+                    // a keyword in front of `::path` (`return ::a::b`, `break ::a::b`, `in ::a::b`, ...) is not a path segment
+                    let kw = id.to_string();
+                    if !leading && is_kw(&kw) && !matches!(kw.as_str(), "crate" | "self" | "super" | "Self") {
+                        out.push(toks[i].clone());
+                        i += 1;
+                        continue;
+                    }
                     segs.push(id.clone());
                     j += 1;
                     while j + 2 < toks.len() + 0 && j + 1 < toks.len() && is_colon2(&toks[j], &toks[j + 1]) {
